@@ -279,4 +279,10 @@ def alignment_sweep(rng, lengths, target="fd", compress="n", rotate=False):
         else:
             ops += [("W",), ("Q", dict(big), None)]
         out.append(make_session(fp, bps, ops, target=target, compress=compress))
+        # the plainest shape: the output's only variable part is one string, which is also the last thing written before the
+        # closing break (so every residue of the output size modulo the staging buffer occurs, up to string-head growth)
+        out.append(make_session(fp, bps, [("Q", {"cport": 2, "asn": pad}, None)] + ([("R", target, 1)] if rotate and L % 3 == 0 else []),
+                                target=target, compress=compress, destroy=(L % 3 != 1) or not rotate))
+        if L % 3 == 1 and rotate:
+            out[-1] = make_session(fp, bps, [("Q", {"cport": 2, "asn": pad}, None), ("W",), ("R", target, 0)], target=target, compress=compress)
     return out
